@@ -148,8 +148,10 @@ fn unary_text(op: &Op) -> Option<String> {
             "map(|x: It| lattices::set_union::SetUnionHashSet::<It>::new_from([x])) -> lattice_reduce::<{}>() -> flat_map(|s: lattices::set_union::SetUnionHashSet<It>| s.into_reveal())",
             p.s()
         ),
-        Op::DeferTick => "defer_tick()".to_string(),
-        Op::DeferTickLazy => "defer_tick_lazy()".to_string(),
+        // explicit item types: rustc cannot always infer the handoff's item type across the tick
+        // boundary (the defer_tick docs recommend the type argument; defer_tick_lazy takes none)
+        Op::DeferTick => "defer_tick::<It>()".to_string(),
+        Op::DeferTickLazy => "defer_tick_lazy() -> identity::<It>()".to_string(),
         _ => return None,
     })
 }
